@@ -306,7 +306,7 @@ def run(ck, build):
     ck.config("H", "R3")
     bytewise_const_rule(ck, mod3, "H/R3", width=False)
     # exact output ranges from the mode summaries and D-COV
-    rm = {"OUTRANGE": "R-C06-EXACT", "LEN": "R-C06-EXACT"}       # where the tag sits inside the range is C01/C03's
+    rm = {"OUTRANGE": "R-C06-EXACT", "INRANGE": "R-C06-EXACT", "LEN": "R-C06-EXACT"}       # where the tag sits inside the range is C01/C03's
     for ks in ("128", "192", "256"):
         aeadlib.check_gentag(ck, mod, ks, label, rm)
         aeadlib.check_absorb(ck, mod, ks, label, rm)
